@@ -149,6 +149,35 @@ func hasPart(v ssa.Value, s string) bool {
 	return false
 }
 
+// hasPartDeep: hasPart, also when the path is a parameter of a helper: then every (static) caller passes a path
+// with that part.
+func hasPartDeep(c *core.Ctx, v ssa.Value, s string, depth int) bool {
+	if hasPart(v, s) {
+		return true
+	}
+	p, ok := an.Origin(v).(*ssa.Parameter)
+	if !ok || depth > 2 {
+		return false
+	}
+	fn := p.Parent()
+	pi := -1
+	for i, q := range fn.Params {
+		if q == p {
+			pi = i
+		}
+	}
+	sites := c.P.Callers(fn)
+	if pi < 0 || len(sites) == 0 {
+		return false
+	}
+	for _, site := range sites {
+		if site.Common().StaticCallee() != fn || pi >= len(site.Common().Args) || !hasPartDeep(c, site.Common().Args[pi], s, depth+1) {
+			return false
+		}
+	}
+	return true
+}
+
 // roGuarded: the block is dominated by the false edge of a read-only test whose true edge returns.
 func roGuarded(b *ssa.BasicBlock) bool {
 	for _, g := range an.GuardingEdges(b) {
@@ -209,6 +238,8 @@ func runFSWho(c *core.Ctx) {
 			c.Pass(key, s.call.Pos(), "%s in the %s family", map[bool]string{true: "mutating call", false: "read-only call"}[s.mutating], fam.Name)
 		case pp == r.StorePath && fam != nil && s.mutating:
 			c.Fail(key, s.call.Pos(), "mutating filesystem call %s in the %s store family", s.name, fam.Name)
+		case pp == r.StorePath && fam == nil && !s.mutating:
+			c.Pass(key, s.call.Pos(), "read-only call in code of the store package shared by the families")
 		case strings.HasSuffix(pp, "/internal/template") && !s.mutating:
 			c.Exception(key, s.call.Pos(), "CLI-only template function: reads a file named on the operator's own command line (version --format)")
 		default:
@@ -448,11 +479,15 @@ func runFSIndex(c *core.Ctx) {
 					}
 					if ct, i := an.CallOf(fileV); ct != nil && i == 0 && an.IsFunc(ct, "os", "CreateTemp") {
 						tmp = ct
-						_, dirPath := accessPath(an.Origin(ct.Call.Args[0]))
+						dirRoot, dirPath := accessPath(an.Origin(ct.Call.Args[0]))
 						parts := pathParts(p)
 						if len(parts) > 0 {
-							_, dp := accessPath(parts[0])
+							dr, dp := accessPath(parts[0])
 							if strings.Join(dirPath, ".") == strings.Join(dp, ".") && len(dp) > 0 {
+								okSrc = true
+							}
+							// the directory is a plain value of the function (a parameter): the same value in both places
+							if len(dp) == 0 && len(dirPath) == 0 && dr != nil && an.Origin(dr) == an.Origin(dirRoot) {
 								okSrc = true
 							}
 						}
@@ -691,15 +726,40 @@ func runFSInit(c *core.Ctx) {
 		}
 		// the initialiser: the family method that writes the layout file
 		var initFn *ssa.Function
-		var layoutWrite ssa.CallInstruction
+		var layoutWrite ssa.CallInstruction // in initFn: the write itself, or the call of the step that performs it
+		var writeFn *ssa.Function           // the function that contains the write
+		var writeCall ssa.CallInstruction
 		for _, s := range fsSinks(c) {
-			if s.mutating && r.FamilyOfFunc(s.fn) == fam && hasPart(s.paths[0], layout) && s.name == "os.WriteFile" {
+			if s.mutating && r.FamilyOfFunc(s.fn) == fam && hasPartDeep(c, s.paths[0], layout, 0) && s.name == "os.WriteFile" {
 				initFn, layoutWrite = s.fn, s.call
+				writeFn, writeCall = s.fn, s.call
 			}
 		}
 		if initFn == nil {
 			c.Unresolved("initialiser:"+fam.Name, "no function writes the layout file")
 			continue
+		}
+		// the write may sit in a step (‘write the layout unless valid’) of the initialiser: the initialiser is then the
+		// method of the repository type that calls the step and sets the flag
+		setsFlag := func(f *ssa.Function) bool {
+			found := false
+			an.Instrs(f, func(in ssa.Instruction) {
+				if st, ok := in.(*ssa.Store); ok {
+					if k, isC := st.Val.(*ssa.Const); isC && k.Value != nil && k.Value.Kind() == constant.Bool && constant.BoolVal(k.Value) {
+						if fa, ok := st.Addr.(*ssa.FieldAddr); ok && an.NamedOf(fa.X.Type()) == fam.Repo {
+							found = true
+						}
+					}
+				}
+			})
+			return found
+		}
+		for hop := 0; hop < 2 && !setsFlag(initFn); hop++ {
+			sites := c.P.Callers(initFn)
+			if len(sites) != 1 || sites[0].Common().StaticCallee() != initFn || r.FamilyOfFunc(sites[0].Parent()) != fam {
+				break
+			}
+			initFn, layoutWrite = sites[0].Parent(), sites[0]
 		}
 		// the exists flag: the boolean field the initialiser sets to true
 		existsField := ""
@@ -736,24 +796,48 @@ func runFSInit(c *core.Ctx) {
 				if b, ok := sc.Signature.Results().At(0).Type().Underlying().(*types.Basic); !ok || b.Kind() != types.Bool {
 					return
 				}
-				if rc, idx := an.CallOf(an.Origin(call.Common().Args[0])); rc != nil && idx == 0 && an.IsFunc(rc, "os", "ReadFile") && hasPart(rc.Call.Args[0], layout) {
+				if rc, idx := an.CallOf(an.Origin(call.Common().Args[0])); rc != nil && idx == 0 && an.IsFunc(rc, "os", "ReadFile") && hasPartDeep(c, rc.Call.Args[0], layout, 0) {
 					verifierUsed[sc] = true
 				}
+				// a check that reads the layout file of the directory it is given itself
+				an.Calls(sc, func(c2 ssa.CallInstruction) {
+					if an.IsFunc(c2, "os", "ReadFile") && hasPart(c2.Common().Args[0], layout) {
+						verifierUsed[sc] = true
+					}
+				})
 			})
 		}
 		repairOK := false
-		for _, b := range initFn.Blocks {
-			ifi := an.BlockIf(b)
-			if ifi == nil {
-				continue
-			}
-			call, trueSucc, ok := an.BoolCallTest(ifi)
-			if !ok || !verifierUsed[call.Call.StaticCallee()] {
-				continue
-			}
-			rej := b.Succs[1-trueSucc]
-			if rej == layoutWrite.Block() || an.BlockReaches(rej, layoutWrite.Block()) {
-				repairOK = true
+		for _, pair := range []struct {
+			f *ssa.Function
+			w ssa.CallInstruction
+		}{{writeFn, writeCall}, {initFn, layoutWrite}} {
+			for _, b := range pair.f.Blocks {
+				ifi := an.BlockIf(b)
+				if ifi == nil {
+					continue
+				}
+				// the verdict may be combined with the read's error (`err == nil && valid(bytes)`): the atoms of the
+				// condition are looked at one by one
+				conds := []ssa.Value{ifi.Cond}
+				if phi, isPhi := ifi.Cond.(*ssa.Phi); isPhi {
+					conds = append(conds, phi.Edges...)
+				}
+				for _, cond := range conds {
+					base, neg := an.CondBase(cond)
+					call, isCall := base.(*ssa.Call)
+					if !isCall || !verifierUsed[call.Call.StaticCallee()] {
+						continue
+					}
+					trueSucc := 0
+					if neg {
+						trueSucc = 1
+					}
+					rej := b.Succs[1-trueSucc]
+					if rej == pair.w.Block() || an.BlockReaches(rej, pair.w.Block()) {
+						repairOK = true
+					}
+				}
 			}
 		}
 		c.Check(repairOK, "initialiser-repairs-layout:"+kn(c.P.FuncName(initFn)), layoutWrite.Pos(), "the initialiser rewrites the layout file on the rejecting edge of the same content check the openers apply (%d verifier function(s) found): %v — otherwise a layout file torn by a crash is never repaired and the repository is ignored after every restart", len(verifierUsed), repairOK)
@@ -1214,10 +1298,8 @@ func runFSCleanup(c *core.Ctx) {
 				isCollector := func(f *ssa.Function) bool {
 					hit := false
 					an.Calls(f, func(call ssa.CallInstruction) {
-						if sc := call.Common().StaticCallee(); sc != nil && sc.Parent() == nil && r.FamilyOfFunc(sc) == nil && core.FuncPkgPath(sc) == core.FuncPkgPath(fn) && sc.Signature.Results().Len() >= 1 {
-							if n := an.NamedOf(sc.Signature.Results().At(0).Type()); n != nil && n.Obj().Name() == "Index" {
-								hit = true
-							}
+						if sc := call.Common().StaticCallee(); sc != nil && sc.Parent() == nil && r.FamilyOfFunc(sc) == nil && core.FuncPkgPath(sc) == core.FuncPkgPath(fn) && returnsIndex(sc) {
+							hit = true
 						}
 					})
 					return hit
@@ -1243,10 +1325,8 @@ func runFSCleanup(c *core.Ctx) {
 					// the collector is called directly in the parent
 					an.Calls(par, func(call ssa.CallInstruction) {
 						if cc, ok := call.(*ssa.Call); ok {
-							if sc := cc.Call.StaticCallee(); sc != nil && sc.Parent() == nil && r.FamilyOfFunc(sc) == nil && sc.Signature.Results().Len() >= 1 {
-								if n := an.NamedOf(sc.Signature.Results().At(0).Type()); n != nil && n.Obj().Name() == "Index" {
-									collectCall = cc
-								}
+							if sc := cc.Call.StaticCallee(); sc != nil && sc.Parent() == nil && r.FamilyOfFunc(sc) == nil && returnsIndex(sc) {
+								collectCall = cc
 							}
 						}
 					})
@@ -1322,6 +1402,47 @@ func keysOf(m map[string]bool) []string {
 	return out
 }
 
+// pruneCallbacks: the functions (closures or named functions) stored in the cleanup-callback field of the cache
+// options (the field of function type returning error of a struct of the cache package).
+func pruneCallbacks(c *core.Ctx) map[*ssa.Function]bool {
+	return core.Memo(c, "prunecallbacks", func() map[*ssa.Function]bool {
+		out := map[*ssa.Function]bool{}
+		for _, fn := range c.P.Funcs("internal/store") {
+			an.Instrs(fn, func(in ssa.Instruction) {
+				st, ok := in.(*ssa.Store)
+				if !ok {
+					return
+				}
+				fa, ok := st.Addr.(*ssa.FieldAddr)
+				if !ok {
+					return
+				}
+				n := an.NamedOf(an.Deref(fa.X.Type()))
+				if n == nil || n.Obj().Pkg() == nil || !strings.HasSuffix(n.Obj().Pkg().Path(), "/internal/cache") {
+					return
+				}
+				stt, ok := n.Underlying().(*types.Struct)
+				if !ok || fa.Field >= stt.NumFields() {
+					return
+				}
+				sig, ok := stt.Field(fa.Field).Type().Underlying().(*types.Signature)
+				if !ok || sig.Results().Len() != 1 || !an.IsErrorType(sig.Results().At(0).Type()) {
+					return
+				}
+				switch v := an.Strip(st.Val).(type) {
+				case *ssa.MakeClosure:
+					if f, ok := v.Fn.(*ssa.Function); ok {
+						out[f] = true
+					}
+				case *ssa.Function:
+					out[v] = true
+				}
+			})
+		}
+		return out
+	})
+}
+
 func runFSTemp(c *core.Ctx) {
 	r := requireRoles(c)
 	if r == nil {
@@ -1338,9 +1459,10 @@ func runFSTemp(c *core.Ctx) {
 			}
 			// the session cleanup: the method reached from the session cache's cleanup callback
 			isCleanup := false
+			cbs := pruneCallbacks(c)
 			for _, site := range c.P.Callers(fn) {
-				if p := site.Parent(); p != nil && p.Parent() != nil && len(p.Blocks) == 1 {
-					isCleanup = true // called from a one-block closure (the PruneFn literal)
+				if p := site.Parent(); p != nil && cbs[p] {
+					isCleanup = true // called from the function given to the session cache as its cleanup callback
 				}
 			}
 			if !isCleanup {
